@@ -108,6 +108,38 @@ class Decoder:
                     return v
                 if name == "peek_any":
                     return st.peek()
+                # a helper of the annotated lexer that is itself a straight line of reads (`get_reg()?; expect_rparen()?; Ok(reg)`):
+                # interpreted in place, on the same token state (inlining bound 2)
+                c = callee_of(e)
+                g = self.F.fns.get(c or "")
+                if g and "hir" in g and getattr(self, "_depth", 0) < 2:
+                    body = peel_keep_clone(g["hir"]["value"])
+                    if body.get("k") == "Block":
+                        sub = Decoder(self.F, lex_name="self")
+                        sub._depth = getattr(self, "_depth", 0) + 1
+                        saved = st.env
+                        st.env = {}
+                        try:
+                            for stm in body.get("stmts", []):
+                                if stm.get("k") == "Let" and stm["pat"].get("k") == "PBinding" and stm.get("init") is not None:
+                                    st.env[stm["pat"]["name"]] = sub.ev(stm["init"], st)
+                                elif stm.get("k") in ("Semi", "Expr") and stm.get("e") is not None:
+                                    sub.ev(stm["e"], st)
+                                else:
+                                    raise Unextractable(f"statement in lexer helper `{name}`")
+                            tail = body.get("expr")
+                            if tail is None:
+                                val = ("unit",)
+                            else:
+                                t2, _ = try_inner(tail)
+                                t2 = peel_keep_clone(t2)
+                                if t2.get("k") == "Call" and short(callee_of(t2) or "") == "Ok" and len(t2["args"]) == 1:
+                                    val = sub.ev(t2["args"][0], st)
+                                else:
+                                    val = sub.ev(tail, st)
+                        finally:
+                            st.env = saved
+                        return val
                 raise Unextractable(f"unknown lexer helper `{name}`")
             rv = self.ev(recv, st)
             if name == "and_then" and e["args"]:
